@@ -1,9 +1,15 @@
 #!/bin/bash
 # MANIFEST.setup_cmd: build the Coq development from files on disk (offline).
-set -e
+# Each check re-builds the dependency cone of its own property file and reports a broken
+# build as a failed obligation, so a failure here is reported but does not abort the set-up.
 cd "$(dirname "$0")/coq"
 mkdir -p gen cases
 ( echo "-Q theories Splinkv"; find theories -name '*.v' | sort ) > _CoqProject
-coq_makefile -f _CoqProject -o Makefile
-timeout 3000 make -j12
-echo "setup ok"
+coq_makefile -f _CoqProject -o Makefile || exit 1
+if timeout 3000 make -k -j12 > .setup_build.log 2>&1; then
+  echo "setup ok: all theories built"
+else
+  echo "setup WARNING: some theory files failed to build (see coq/.setup_build.log):"
+  grep -E "^make.*Error|^File " .setup_build.log | head -20
+fi
+exit 0
